@@ -413,23 +413,26 @@ Qed.
 Definition dsig_ok (ps : list R) : Prop :=
   exists a c1 c2 rest, ps = a :: c1 :: a :: c2 :: rest /\ ((0 <= a /\ c1 <= c2) \/ (a <= 0 /\ c2 <= c1)).
 
+Lemma some_inj {A} (a b : A) : Some a = Some b -> a = b.
+Proof. congruence. Qed.
+
 Lemma mf_unit e x ps y : mf RO e x ps = Some y -> (e = 5%nat -> dsig_ok ps) -> 0 <= y <= 1.
 Proof.
   intros H D.
-  destruct e as [|e]; [cbn in H; inversion H; lra|].
-  destruct e as [|e]; [destruct ps as [|a0 [|a1 r]]; cbn in H; inversion H; pose proof (gauss_range x a0 a1); lra|].
-  destruct e as [|e]; [destruct ps as [|a0 [|a1 [|a2 [|a3 r]]]]; cbn in H; inversion H; pose proof (gauss2_range x a0 a1 a2 a3); lra|].
-  destruct e as [|e]; [destruct ps as [|a0 [|a1 [|a2 r]]]; cbn in H; inversion H; pose proof (gbell_range x a0 a1 a2); lra|].
-  destruct e as [|e]; [destruct ps as [|a0 [|a1 r]]; cbn in H; inversion H; pose proof (sig_range x a0 a1); lra|].
+  destruct e as [|e]; [cbn in H; apply some_inj in H; subst y; lra|].
+  destruct e as [|e]; [destruct ps as [|a0 [|a1 r]]; cbn [mf] in H; try discriminate H; apply some_inj in H; subst y; pose proof (gauss_range x a0 a1); lra|].
+  destruct e as [|e]; [destruct ps as [|a0 [|a1 [|a2 [|a3 r]]]]; cbn [mf] in H; try discriminate H; apply some_inj in H; subst y; pose proof (gauss2_range x a0 a1 a2 a3); lra|].
+  destruct e as [|e]; [destruct ps as [|a0 [|a1 [|a2 r]]]; cbn [mf] in H; try discriminate H; apply some_inj in H; subst y; pose proof (gbell_range x a0 a1 a2); lra|].
+  destruct e as [|e]; [destruct ps as [|a0 [|a1 r]]; cbn [mf] in H; try discriminate H; apply some_inj in H; subst y; pose proof (sig_range x a0 a1); lra|].
   destruct e as [|e].
-  { destruct (D eq_refl) as (a & c1 & c2 & rest & -> & Hc). cbn in H. inversion H. pose proof (dsig_range x a c1 c2 Hc). lra. }
-  destruct e as [|e]; [destruct ps as [|a0 [|a1 [|a2 [|a3 r]]]]; cbn in H; inversion H; pose proof (psig_range x a0 a1 a2 a3); lra|].
-  destruct e as [|e]; [destruct ps as [|a0 [|a1 [|a2 [|a3 r]]]]; cbn in H; inversion H; apply trap_range|].
-  destruct e as [|e]; [destruct ps as [|a0 [|a1 [|a2 r]]]; cbn in H; inversion H; apply tri_range|].
-  destruct e as [|e]; [destruct ps as [|a0 [|a1 r]]; cbn in H; inversion H; apply lins_range|].
-  destruct e as [|e]; [destruct ps as [|a0 [|a1 r]]; cbn in H; inversion H; apply linz_range|].
-  destruct e as [|e]; [destruct ps as [|a0 [|a1 r]]; cbn in H; inversion H; apply s_range|].
-  destruct e as [|e]; [destruct ps as [|a0 [|a1 r]]; cbn in H; inversion H; apply z_range|].
-  destruct e as [|e]; [destruct ps as [|a0 [|a1 [|a2 [|a3 r]]]]; cbn in H; inversion H; apply pi_range|].
-  cbn in H. inversion H. lra.
+  { destruct (D eq_refl) as (a & c1 & c2 & rest & -> & Hc). cbn [mf] in H. apply some_inj in H; subst y. pose proof (dsig_range x a c1 c2 Hc). lra. }
+  destruct e as [|e]; [destruct ps as [|a0 [|a1 [|a2 [|a3 r]]]]; cbn [mf] in H; try discriminate H; apply some_inj in H; subst y; pose proof (psig_range x a0 a1 a2 a3); lra|].
+  destruct e as [|e]; [destruct ps as [|a0 [|a1 [|a2 [|a3 r]]]]; cbn [mf] in H; try discriminate H; apply some_inj in H; subst y; apply trap_range|].
+  destruct e as [|e]; [destruct ps as [|a0 [|a1 [|a2 r]]]; cbn [mf] in H; try discriminate H; apply some_inj in H; subst y; apply tri_range|].
+  destruct e as [|e]; [destruct ps as [|a0 [|a1 r]]; cbn [mf] in H; try discriminate H; apply some_inj in H; subst y; apply lins_range|].
+  destruct e as [|e]; [destruct ps as [|a0 [|a1 r]]; cbn [mf] in H; try discriminate H; apply some_inj in H; subst y; apply linz_range|].
+  destruct e as [|e]; [destruct ps as [|a0 [|a1 r]]; cbn [mf] in H; try discriminate H; apply some_inj in H; subst y; apply s_range|].
+  destruct e as [|e]; [destruct ps as [|a0 [|a1 r]]; cbn [mf] in H; try discriminate H; apply some_inj in H; subst y; apply z_range|].
+  destruct e as [|e]; [destruct ps as [|a0 [|a1 [|a2 [|a3 r]]]]; cbn [mf] in H; try discriminate H; apply some_inj in H; subst y; apply pi_range|].
+  cbn in H. apply some_inj in H; subst y. lra.
 Qed.
